@@ -126,6 +126,67 @@ func c15Run(c *choice.Ctx, rep *report.R, cfg c15Cfg, addrs []netip.Addr, maxLen
 	rep.Eval(tag + fmt.Sprintf("%+v", cfg) + strings.Join(trace, ";"))
 }
 
+// c15PhaseSweep: drain / silence / return histories on a quarter-second grid, so that the return falls at every phase relative to
+// the limiter's periodic clean-up, for configurations whose burst is and is not a multiple of the rate. History: the subnet spends
+// its whole burst at time T, is silent for I, then asks for its whole burst again (and once more 0.25 s later); T in 0..Tmax,
+// I in 0.25..Imax. Oracle: the same window bound and within-budget rule as c15Run.
+func c15PhaseSweep(t *testing.T, rep *report.R, tmaxQ, imaxQ int) {
+	cfgs := []c15Cfg{{20, 50, 0, 0}, {20, 0, 0, 0}, {3, 10, 0, 0}, {7, 10, 0, 0}, {1, 5, 0, 0}, {0.5, 3, 0, 0}}
+	idx := 0
+	synctest.Test(t, func(t *testing.T) {
+		for ci, cfg := range cfgs {
+			limit, burst, _, _ := cfg.eff()
+			for tq := 0; tq <= tmaxQ; tq++ {
+				idx++
+				if !report.Owns(idx) {
+					continue
+				}
+				for iq := 1; iq <= imaxQ; iq++ {
+					T, I := time.Duration(tq)*250*time.Millisecond, time.Duration(iq)*250*time.Millisecond
+					cl := NewClientLimiter(ClientLimiterOpts{Limit: cfg.limit, Burst: cfg.burst})
+					a := c15Addrs[0]
+					start := time.Now()
+					var adm []c15Admit
+					var trace []string
+					ask := func(cost int) {
+						now := time.Since(start)
+						ok := cl.AllowN(a, time.Now(), cost)
+						trace = append(trace, fmt.Sprintf("t=%v cost%d=%v", now, cost, ok))
+						if !ok {
+							return
+						}
+						adm = append(adm, c15Admit{now, cost})
+						sum := 0
+						for j := len(adm) - 1; j >= 0; j-- {
+							sum += adm[j].cost
+							w := (now - adm[j].at).Seconds()
+							if float64(sum) > float64(burst)+limit*w+1e-6 {
+								rep.Violate("C15:limiter:bound-exceeded:after-idle", fmt.Sprintf("cost %d admitted within a %.3fs window, bound burst+rate*window = %.3f\n  config limit=%v burst=%d; history: %s",
+									sum, w, float64(burst)+limit*w, cfg.limit, cfg.burst, strings.Join(trace, " ")), map[string]any{"Phase": true, "Cfg": ci, "T": tq, "I": iq})
+								return
+							}
+						}
+					}
+					time.Sleep(T)
+					synctest.Wait()
+					ask(burst)
+					time.Sleep(I)
+					synctest.Wait()
+					ask(burst)
+					time.Sleep(250 * time.Millisecond)
+					synctest.Wait()
+					ask(burst)
+					ask(1)
+					cl.Close()
+					synctest.Wait()
+					rep.Eval(fmt.Sprintf("phase|%d|%d|%d|%d", ci, tq, iq, len(adm)))
+				}
+				report.Progress()
+			}
+		}
+	})
+}
+
 func TestVerifC15(t *testing.T) {
 	rep := report.New("C15 client limiter")
 	defer rep.Write()
@@ -160,7 +221,16 @@ func TestVerifC15(t *testing.T) {
 	}
 	rep.Rule = fmt.Sprintf("E3 (virtual clock, real gc ticker): (buckets) configs limit{1,20} x burst{omitted,1,5,200} with default masks x all arrival sequences of length <=%d over 3 addresses in 2 subnets x delay {0, 1/limit, 1s, 61s, 121s} x cost {1,3,15,burst}; "+
 		"(masks) v4_mask {omitted,16,21,24,25,27,32} x v6_mask {omitted,48,50,53,64} with limit=burst=1 x all ordered pairs over 26 addresses (a v4 base, its v4-mapped form and a v6 base, each with one bit flipped at positions around every mask boundary) at one instant; "+
-		"oracle: over every window the admitted cost per property-defined subnet <= burst + rate*window; a request within the budget left by its own subnet's traffic is never refused", maxLen)
+		"oracle: over every window the admitted cost per property-defined subnet <= burst + rate*window; a request within the budget left by its own subnet's traffic is never refused; "+
+		"(phases) configs (rate,burst) {(20,50),(20,default),(3,10),(7,10),(1,5),(0.5,3)}: spend the whole burst at T, stay silent for I, ask for the whole burst again (twice) for every T in 0..%ds and I in 0.25..%ds on a 0.25 s grid, i.e. at every phase of the periodic clean-up", maxLen, report.ParamInt("PHASE_T", 260)/4, report.ParamInt("PHASE_I", 40)/4)
+	if rp := report.ReplayFile(); rp != nil {
+		var x struct{ Phase bool }
+		rp.Decode(&x)
+		if x.Phase {
+			c15PhaseSweep(t, rep, report.ParamInt("PHASE_T", 260), report.ParamInt("PHASE_I", 40))
+			return
+		}
+	}
 	sh, nsh := report.Shard()
 	run := func(tag string, cfg c15Cfg, addrs []netip.Addr, ml int, delays bool) {
 		opt := choice.Options{Bound: -1, Shard: sh, NShards: nsh, ShardDepth: 3, Deadline: report.Deadline()}
@@ -202,5 +272,8 @@ func TestVerifC15(t *testing.T) {
 		run(fmt.Sprintf("mask%d", i), cfg, maskAddrs, 2, false)
 	}
 	c15Delays = saved
+	if rp := report.ReplayFile(); rp == nil {
+		c15PhaseSweep(t, rep, report.ParamInt("PHASE_T", 260), report.ParamInt("PHASE_I", 40))
+	}
 	rep.Sample(map[string]any{"config": "limit=1 burst=200 masks omitted", "arrivals": "+0 198.51.100.7 cost15 ... ; +121s 198.51.100.7 cost15", "oracle": "admitted cost in any window <= 200 + 1*window"})
 }
